@@ -5,6 +5,7 @@ CONSTANTS
   Urgent = TRUE
   Guard = TRUE
   SS = TRUE
+  Exp = {}
   Pushes = TRUE
 INVARIANTS TypeOK C08 C11_First
 CHECK_DEADLOCK FALSE
